@@ -12,7 +12,7 @@ Author: Varun Agrawal, Gerry Chen
 
 from typing import List
 
-from pyparsing import Optional, ParseResults  # type: ignore
+from pyparsing import Keyword, Optional, ParseResults  # type: ignore
 
 from .tokens import DEFAULT_ARG, EQUAL, IDENT, SEMI_COLON
 from .type import TemplatedType, Type
@@ -32,8 +32,10 @@ class Variable:
     Vector3 kGravity;  // This is a global variable.
     ````
     """
+    # `operator` is not a variable name: without this, `T operator==/*{*/(...) const;`
+    # matches as a variable `operator` whose initialiser runs up to the class's `}`.
     rule = ((Type.rule ^ TemplatedType.rule)("ctype")  #
-            + IDENT("name")  #
+            + ~Keyword("operator") + IDENT("name")  #
             + Optional(EQUAL + DEFAULT_ARG)("default")  #
             + SEMI_COLON  #
             ).setParseAction(lambda t: Variable(
